@@ -13,8 +13,9 @@ Case(t) ==
                     [p |-> pre[i], o |-> Opts(t, pre[i]), key |-> KeyAt(t, pre[i]), id |-> IdAt(t, pre[i])]],
        exp   |-> [l \in LSetNames |-> Route(t, LSets[l])] ]
 
-\* every evaluation of Sub draws afresh when Pick = PickOne
-GenNext == AddChild(Sub(Depth - 1))
+\* With Pick = PickOne every evaluation of Sub draws afresh.  TLC evaluates a
+\* constant-level expression only once, so the argument mentions the state.
+GenNext == AddChild(Sub(Depth - 1 + 0 * Len(tree.kids)))
 GenSpec == Init /\ [][GenNext]_vars
 Emit == PrintT("@@H " \o ToJson(Case(tree)))
 =============================================================================
